@@ -793,7 +793,7 @@ def correspond(ctx, use_driver=True, volume=None):
     env = Env(ctx, use_driver)
     if env.use_driver:
         inverse_stream(ctx, 80 if ctx.tier == "quick" else 800)
-    n = volume or (2500 if ctx.tier == "quick" else 40000)
+    n = volume or (2000 if ctx.tier == "quick" else 40000)
     for _ in range(n):
         seed = ctx.rng.getrandbits(48)
         try:
